@@ -182,6 +182,12 @@ func c05Catalogue(ctx *core.Ctx) ([]FaultCase, error) {
 					if devs[2] != devs[0] {
 						add(devs[2], fs[(rot+ti+ni+1)%len(fs)], "plus1")
 					}
+					if len(fs) > 1 && sc.Proto.IsEcdsa() {
+						// list fields are the proofs, which the ECDSA rounds verify in worker goroutines: the same
+						// alteration at the last position with a single worker slot (tss.Parameters.SetConcurrency(1))
+						add(devs[2], fs[len(fs)-1], "plus1")
+						cases[len(cases)-1].Sc.Concurrency = 1
+					}
 					if r.base.cost <= 1 {
 						add(devs[1], f, kinds[1+(rot+ti+ni)%(len(kinds)-1)])
 					}
